@@ -61,7 +61,7 @@ SITES = [
     dict(gen="FftMasks", name="blockDefaultRadius", file=_MEA, func="DiffractionPatterns.block_direct",
          select=("assign", "radius", 1), params_map={"max(self.angular_sampling)": "maxs"}, params=["maxs"], modes=["rat"]),
     dict(gen="FftMasks", name="blockMargin", file=_MEA, func="DiffractionPatterns.block_direct",
-         select=("augassign", "radius", 0), params_map={"max(self.angular_sampling)": "maxs"}, params=["maxs"], modes=["rat"]),
+         select=("assign", "margin_width", 0), params_map={"max(self.angular_sampling)": "maxs"}, params=["maxs"], modes=["rat"]),
     dict(gen="Bandlimit", name="keepInner", file=_MEA, func="DiffractionPatterns._bandlimit", select=("assign", "block", 0),
          inline={"alpha": ("assign", "alpha", 0)}, params_map={"alpha_x[:, None]": "ax", "alpha_y[None]": "ay", "inner": "inner"},
          params=["ax", "ay", "inner"], ret="Bool", modes=["real"]),
